@@ -20,6 +20,9 @@ Laws(e) ==
    (IF e.all = AllOcc(n) /\ e.mut_same THEN {} ELSE {"all_slot_occurrences"})
    \cup (IF e.pub = PubOcc(n) THEN {} ELSE {"public_slot_occurrences"})
    \cup (IF Bag(e.priv) = Bag(PrivOcc(n)) THEN {} ELSE {"private_slot_occurrences"})
+   \cup (IF Bag(e.priv_mut) = Bag(PrivOcc(n)) THEN {} ELSE {"private_slot_occurrences_mut"})
+   \cup (IF AlphaEqNode(e.refreshed, n) /\ PubOcc(e.refreshed) = PubOcc(n) /\ e.refreshed_slots_same THEN {}
+         ELSE {"refresh_private is an alpha-renaming that leaves the public slots alone"})
    \cup (IF Bag(e.pub \o e.priv) = Bag(e.all) THEN {} ELSE {"public+private=all"})
    \cup (IF Range(e.slots) = Slots(n) /\ Range(e.slots) = Range(e.pub) THEN {} ELSE {"slots"})
    \cup (IF AlphaEqNode(e.back, n) THEN {} ELSE {"shape.apply(bij) = node"})
